@@ -14,7 +14,7 @@ RULE = ("requirement syntax trees drawn from each ecosystem's range grammar (npm
         ".* forms without epoch/local; Maven: unions of bracketed ranges, hard and soft versions), numbers small so that bounds "
         "collide, printed with random legal spelling/white space; candidates = every bound, its predecessor/successor in each "
         "component, prerelease neighbours (npm, Cargo), and random versions (PyPI: final releases with a non-zero segment; "
-        "Maven: dotted numbers); a quarter of the npm/Cargo candidates is asked again with SemVer build metadata (identifiers with - and .). Go answers MatchVersion, Constraint.Match(version string) and, for npm, resolve.MatchRequirement for every (requirement, candidate), and the three must agree; the extracted reference "
+        "Maven: dotted numbers; a second Maven stream carries qualifiers attached by - on ~30% of the bounds and candidates, judged against MavenSpec's ordering, candidates >= 0); the reference specification's own witness of non-emptiness is added as a candidate; 10% of the npm/Cargo requirements are plain (operators of the theorems on full releases) so that the region of the theorems is populated and counted; a quarter of the npm/Cargo candidates is asked again with SemVer build metadata (identifiers with - and .). Go answers MatchVersion, Constraint.Match(version string) and, for npm, Maven and PyPI, resolve.MatchRequirement for every (requirement, candidate), and the three must agree; the extracted reference "
         "specification (Spec/*.v, validated against the real tool when present) answers on the syntax tree; the extracted "
         "model answers from the same parse tables. A case is non-trivial when the requirement is accepted and at least one "
         "candidate satisfies it and one does not")
@@ -32,13 +32,16 @@ TRUSTED = [
 ASSUMPTIONS = [
     "the composition theorems C03_*_partial hold on the sub-grammar delimited by the boolean side conditions in Properties/C03.v; "
     "outside it the agreement is decided by the oracle (Go against the extracted specification) on generated requirements",
+    "operator theorems exist for npm (>=, >, <, <=, ^ (every major), ~, = on full release versions, release candidates) and for Cargo (>=, <, ^, ~, =); and-composition (C03_and_partial) and ||-composition (C03_or_partial) for npm only. There are NO "
+    "operator theorems for PyPI and Maven, nor for partial versions, prerelease bounds, Cargo > and <=: there the property rests on the oracle and the correspondence run. "
+    "The share of generated requirements inside the region of the theorems is reported (region:* counters); a hit inside it is reported as a divergence",
     "candidates are limited as the property states: PyPI final releases with a non-zero release segment, Maven versions that are dotted numbers",
 ]
 MANIFEST = dict(
     category="proof",
     text=("Executable model of tokenizer, operator desugaring (opVersionToSpan), span construction, intersection, canonical "
           "union and matching, with reference specifications of node-semver / Cargo / PEP 440 specifiers / Maven ranges in "
-          "Gallina. Theorems: per-operator soundness of the produced span against the reference's comparator semantics, the "
+          "Gallina. Theorems (npm and Cargo only; none for PyPI and Maven): per-operator soundness of the produced span against the reference's comparator semantics, the "
           "prerelease admission rule compared with node's, refuted witnesses for the recorded defects, partial composition on "
           "the stated sub-grammar. Model tied to the code by differential execution; Go's MatchVersion is compared with the "
           "extracted specification on every generated (requirement, candidate) pair, and hits are confirmed against the real tool."),
@@ -216,7 +219,7 @@ def plain_ast(rng, eco):
     alternatives; Cargo: one comparator.  They are printed without textual variation."""
     def triple():
         return [rng.choice([0, 1, 1, 2, 3]), rng.choice([0, 0, 1, 2, 9]), rng.choice([0, 0, 1, 3])]
-    ops = [1, 3, 3, 4, 4, 6, 7] + ([0] if eco == "npm" else [])
+    ops = [1, 3, 3, 4, 4, 6, 7] + ([0, 2, 5] if eco == "npm" else [])
     if eco == "npm":
         return [[1, [[rng.choice(ops), triple() + [[]]] for _ in range(rng.choice([1, 2, 2, 3]))]] for _ in range(rng.choice([1, 1, 2, 3]))]
     return [[rng.choice(ops)] + triple() + [[]]]
@@ -392,7 +395,7 @@ def confirm_with_tools(ctx, cases, hits, spec):
 
 # ----------------------------------------------------------------------------- the region of the theorems
 
-THM_CMP = re.compile(rb"^(>=|<|\^|~|=)?(0|[1-9]\d*)\.(0|[1-9]\d*)\.(0|[1-9]\d*)$")
+THM_CMP = re.compile(rb"^(>=|<=|>|<|\^|~|=)?(0|[1-9]\d*)\.(0|[1-9]\d*)\.(0|[1-9]\d*)$")
 THM_CAND = re.compile(rb"^(0|[1-9]\d*)\.(0|[1-9]\d*)\.(0|[1-9]\d*)$")
 FIN = (1 << 63) - 1
 
@@ -408,8 +411,9 @@ def thm_comparator(eco, t):
         return False
     if op == b"<" and nums == [0, 0, 0]:
         return False
-    if eco == "npm" and op == b"^" and nums[0] == 0:
-        return False
+    if op in (b">", b"<="):
+        # C03_op_gt_sound / C03_op_le_sound: npm only; > needs patch + 1 below the value for infinity
+        return eco == "npm" and not (op == b">" and nums[2] >= FIN - 1)
     return True
 
 
